@@ -509,6 +509,12 @@ fn two_d(mon: &mut Monitor) {
                 ("Affine2::from_mat2(matrix2)", Affine2::from_mat2(a.matrix2).transform_point2(p).to_array().map(|x| x as f64)),
                 ("Mat3::from_mat2(matrix2)", Mat3::from_mat2(a.matrix2).transform_point2(p).to_array().map(|x| x as f64)),
                 ("DMat2::from_mat3", (DMat2::from_mat3(dm3) * p.as_dvec2()).to_array()),
+                ("Mat2::as_dmat2", (a.matrix2.as_dmat2() * p.as_dvec2()).to_array()),
+                ("DMat2::as_mat2", (DMat2::from_mat3(dm3).as_mat2() * p).to_array().map(|x| x as f64)),
+                ("Mat3A::from(Mat3) * (p,0)", (Mat3A::from(m3) * p.extend(0.0)).truncate().to_array().map(|x| x as f64)),
+                ("Mat3::from(Mat3A) * (p,0)", (Mat3::from(m3a) * p.extend(0.0)).truncate().to_array().map(|x| x as f64)),
+                ("DMat3::as_mat3", dm3.as_mat3().transform_vector2(p).to_array().map(|x| x as f64)),
+                ("Mat3::as_dmat3", m3.as_dmat3().transform_vector2(p.as_dvec2()).to_array()),
             ];
             c.event(it % 64, true);
             for (nm, g) in pts {
